@@ -329,6 +329,13 @@ func runC10(c *Ctx) {
 	R.Rules["E5.stop-order"] = "teardown leaves the registry before anything else and runs once"
 	R.Rules["E5.route"] = "commands are routed through the same map: hit → that session's channel, miss → immediate not-exist error"
 	c.sessionRules(true)
+	// one handler table per accepted connection: a table shared by all connections is a Go map written by the accept
+	// loop while connection goroutines read it - the runtime aborts the whole process ("concurrent map read and map write")
+	if mk := c.P.Method("service", "GoJT808", "createDefaultHandle"); mk != nil {
+		c.perConnectionHandlers(mk)
+	} else {
+		R.Fatal("anchor GoJT808.createDefaultHandle not found")
+	}
 	R.Require("E5.own-key", 1, "")
 	R.Require("E1.index", 20, "")
 	R.Require("E1.slice", 60, "")
